@@ -445,17 +445,49 @@ Section C20_rollup.
     exists m, closeness_centrality teqb tltb lw g weighted wf_improved = Ok m.
   Proof. exact (total_closeness_centrality teqb tltb teqb_spec tltb_asym tltb_total). Qed.
 
-  (* ---- louvain_partitions / louvain_communities: both RETURN a value - no Panic site (the
-     unwraps on internal lookups of louvain.rs, the constructor Results, modularity's Result), no fuel
-     exhaustion, no Err (not even NoPartitions) - and the value is a chain of nested partitions whose
-     last level louvain_communities returns.  Fuel (arguments of the model): level fuel > N, sweep
-     fuel >= N^N.  [perms] is the model's oracle for the seeded shuffle: a row of k indexes < k for
-     every node count k <= N (shuffle_ok).  PARTIAL: hypotheses C20 does not grant are weights_ok
-     (weighted = true: every edge has a weight and none is negative) and resolution >= 0.  On the
-     excluded inputs the model either returns (negative weights with non-zero total, negative
-     resolution) or reports a model-domain site (NaN weight; total weight 0 with non-zero terms):
-     C20_total_louvain_example.  Proofs/LouvainTotal.v. ---- *)
+  (* ---- louvain_partitions / louvain_communities.  Fuel (arguments of the model): level fuel > N,
+     sweep fuel >= N^N.  [perms] is the model's oracle for the seeded shuffle: a row of k indexes < k
+     for every node count k <= N (shuffle_ok).
+     (a) C20_louvain_negative_weights_rejected (repair of F23, /repo 9619d10): weighted = true and a
+     stored edge with a real negative weight - InvalidArgument from both entry points, for EVERY graph
+     state, fuel, shuffle table, resolution and threshold (it is the first statement of the function).
+     (b) C20_total_louvain_partial: on every coherent graph either (a) applies, or the weights are
+     non-negative and both functions RETURN a value - no Panic site (the unwraps on internal lookups
+     of louvain.rs, the constructor Results, modularity's Result), no fuel exhaustion, no Err (not
+     even NoPartitions) - a chain of nested partitions whose last level louvain_communities returns.
+     Since the guard is modelled, non-negativity of the weights is no longer a hypothesis.
+     PARTIAL: the hypotheses C20 does not grant are now (i) weighted = true: every edge HAS a weight
+     (the exact model has no NaN arithmetic: a NaN weight passes the guard, as in the code, and then
+     reaches the model-domain site [nan_site]); (ii) resolution >= 0 (a negative one returns in the
+     evaluated example).  C20_total_louvain_nonnegative_weights is the statement of the previous
+     round (hypothesis weights_ok), kept: it is the second case of (b).
+     (c) C20_louvain_invalid_argument_iff: under the hypotheses of (b), InvalidArgument is returned
+     for the graphs with a negative weight under weighted = true and ONLY for them.
+     Evaluated: C20_total_louvain_example, C20_louvain_negative_weights_example.
+     Proofs/LouvainModelOk.v, Proofs/LouvainTotal.v. ---- *)
+  Theorem C20_louvain_negative_weights_rejected : forall lf sf (g : gstate) weighted res thr perms,
+    weighted = true -> (exists e z, In e (get_all_edges g) /\ ew e = Some z /\ (z < 0)%Z) ->
+    louvain_partitions teqb tltb lf sf g weighted res thr perms = Err InvalidArgument /\
+    louvain_communities teqb tltb lf sf g weighted res thr perms = Err InvalidArgument.
+  Proof.
+    intros lf sf g weighted res thr perms Hw Hn.
+    exact (proj2 (louvain_negative_weights_rejected teqb tltb lf sf g weighted res thr perms Hw Hn)).
+  Qed.
+
   Theorem C20_total_louvain_partial : forall lf sf (g : gstate) weighted res thr perms,
+    WF g -> (weighted = true -> all_real (get_all_edges g)) -> (0 <= res)%Q ->
+    (List.length (nodes_vec g) < lf)%nat -> (List.length (nodes_vec g) ^ List.length (nodes_vec g) <= sf)%nat ->
+    shuffle_ok perms (List.length (nodes_vec g)) ->
+    (weighted = true /\ has_negative_edge g /\
+     louvain_partitions teqb tltb lf sf g weighted res thr perms = Err InvalidArgument /\
+     louvain_communities teqb tltb lf sf g weighted res thr perms = Err InvalidArgument) \/
+    (weights_ok g weighted /\
+     exists ls, louvain_partitions teqb tltb lf sf g weighted res thr perms = Ok ls /\
+                levels_ok (map nname (nodes_vec g)) ls /\
+                louvain_communities teqb tltb lf sf g weighted res thr perms = Ok (last ls [])).
+  Proof. exact (louvain_total_guarded teqb tltb teqb_spec tltb_asym tltb_total). Qed.
+
+  Theorem C20_total_louvain_nonnegative_weights : forall lf sf (g : gstate) weighted res thr perms,
     WF g -> weights_ok g weighted -> (0 <= res)%Q ->
     (List.length (nodes_vec g) < lf)%nat -> (List.length (nodes_vec g) ^ List.length (nodes_vec g) <= sf)%nat ->
     shuffle_ok perms (List.length (nodes_vec g)) ->
@@ -463,6 +495,16 @@ Section C20_rollup.
                levels_ok (map nname (nodes_vec g)) ls /\
                louvain_communities teqb tltb lf sf g weighted res thr perms = Ok (last ls []).
   Proof. exact (louvain_total teqb tltb teqb_spec tltb_asym tltb_total). Qed.
+
+  Theorem C20_louvain_invalid_argument_iff : forall lf sf (g : gstate) weighted res thr perms,
+    WF g -> (weighted = true -> all_real (get_all_edges g)) -> (0 <= res)%Q ->
+    (List.length (nodes_vec g) < lf)%nat -> (List.length (nodes_vec g) ^ List.length (nodes_vec g) <= sf)%nat ->
+    shuffle_ok perms (List.length (nodes_vec g)) ->
+    (louvain_partitions teqb tltb lf sf g weighted res thr perms = Err InvalidArgument <->
+     weighted = true /\ has_negative_edge g) /\
+    (louvain_communities teqb tltb lf sf g weighted res thr perms = Err InvalidArgument <->
+     weighted = true /\ has_negative_edge g).
+  Proof. exact (louvain_invalid_argument_iff teqb tltb teqb_spec tltb_asym tltb_total). Qed.
 End C20_rollup.
 
 (* ---- generators (their arguments are numbers, not graphs) ---- *)
@@ -608,17 +650,33 @@ Theorem C20_total_louvain_example :
   (* what the hypotheses exclude, evaluated: an ill-formed shuffle table (the model's own oracle) ... *)
   louvain_partitions Z.eqb Z.ltb 4 27 t_gT true 1 (1 # 10000000)%Q [[0%nat]] =
     Panic "model: shuffle table has no row for this node count" /\
-  (* ... weighted = true with an edge without weight, or with weights 1 and -1 adding up to 0:
-     model-domain sites (no NaN / inf arithmetic in the exact model) ... *)
+  (* ... weighted = true with an edge without weight: a model-domain site (no NaN arithmetic in the
+     exact model) ... *)
   ~ weights_ok t_gN true /\
   louvain_partitions Z.eqb Z.ltb 6 3125 t_gN true 1 (1 # 10000000)%Q t_perms5 = Panic nan_site /\
-  louvain_partitions Z.eqb Z.ltb 6 3125 t_gZ true 1 (1 # 10000000)%Q t_perms5 = Panic modularity_domain_site /\
-  (* ... while other inputs outside the hypotheses just return: negative weights with a non-zero
-     total, a negative resolution *)
-  ~ weights_ok t_gU true /\
-  louvain_partitions Z.eqb Z.ltb 6 3125 t_gU true 1 (1 # 10000000)%Q t_perms5 = Ok [[[1; 7]; [3; 5]; [9]]]%Z /\
+  (* ... a negative weight under weighted = true (all weights real: the hypothesis of
+     [louvain_total_guarded]) is answered by the guard of F23, whether the total is 0 (t_gZ: 1, -1)
+     or not (t_gU); before the repair the model reported a domain site resp. returned levels ... *)
+  ~ weights_ok t_gU true /\ all_real (get_all_edges t_gU) /\ has_negative_edge t_gU /\ has_negative_edge t_gZ /\
+  louvain_partitions Z.eqb Z.ltb 6 3125 t_gZ true 1 (1 # 10000000)%Q t_perms5 = Err InvalidArgument /\
+  louvain_partitions Z.eqb Z.ltb 6 3125 t_gU true 1 (1 # 10000000)%Q t_perms5 = Err InvalidArgument /\
+  louvain_communities Z.eqb Z.ltb 6 3125 t_gU true 1 (1 # 10000000)%Q t_perms5 = Err InvalidArgument /\
+  (* ... and not under weighted = false; a negative resolution just returns *)
   louvain_partitions Z.eqb Z.ltb 6 3125 t_gU false (-1) (1 # 10000000)%Q t_perms5 = Ok [[[3; 7; 5; 1]; [9]]]%Z.
 Proof. exact total_louvain_example. Qed.
+
+(* F23's input, the undirected star 2-3 (2), 2-5 (2), 2-11 (-1), 2-7 (-2): InvalidArgument under
+   weighted = true (non-vacuity of C20_louvain_negative_weights_rejected and of the first case of
+   C20_total_louvain_partial), a partition under weighted = false *)
+Theorem C20_louvain_negative_weights_example :
+  WF Z.eqb Z.ltb t_gS /\ all_real (get_all_edges t_gS) /\ has_negative_edge t_gS /\
+  louvain_partitions Z.eqb Z.ltb 6 3125 t_gS true 1 (1 # 10000000)%Q t_perms5 = Err InvalidArgument /\
+  louvain_communities Z.eqb Z.ltb 6 3125 t_gS true 1 (1 # 10000000)%Q t_perms5 = Err InvalidArgument /\
+  (* whatever the fuel and the shuffle table: nothing is computed before the guard *)
+  louvain_communities Z.eqb Z.ltb 0 0 t_gS true 1 (1 # 10000000)%Q [] = Err InvalidArgument /\
+  louvain_partitions Z.eqb Z.ltb 6 3125 t_gS false 1 (1 # 10000000)%Q t_perms5 = Ok [[[2; 7; 5; 11; 3]]]%Z /\
+  louvain_communities Z.eqb Z.ltb 6 3125 t_gS false 1 (1 # 10000000)%Q t_perms5 = Ok [[2; 7; 5; 11; 3]]%Z.
+Proof. exact louvain_negative_weights_example. Qed.
 
 (* generators and GraphML: arguments outside the "valid" range, evaluated *)
 Theorem C20_total_generators_example :
